@@ -6,7 +6,7 @@ import math
 import numpy as np
 from hypothesis import strategies as st
 
-from twv.runner import Sub, Violation
+from twv.runner import Sub, Violation, canon
 from twv.gens import fl, xs, ys
 
 import traffic_weaver.process as process
@@ -14,106 +14,91 @@ from traffic_weaver import Weaver
 
 PROPERTY = "C15"
 LEVEL = "exploration"
-RULE = ("Hypothesis builds signals of 1..60 (thorough ..200) samples from the seven shared value kinds (constant, "
-        "integer, dyadic, smooth, ties, sign-changing, 1e6-offset) as float64 ndarray / list / int64 array; a noise "
-        "request = scalar or per-sample snr (list or ndarray; float or int) in dB [-10, 60] or linear [0.1, 1e6] with "
-        "snr_in_db True / False / omitted (documented default: dB), or no snr and an explicit std (also snr together "
-        "with an ignored std); a drawn 32-bit seed for NumPy's global RNG. spy: numpy.random.normal replaced by a "
-        "forwarding recorder; repro/weaver: the same call repeated under the same seed and compared with a draw made "
-        "by the harness under that seed with the oracle's scale. empirical (enumerated, not drawn): 3 (quick) / 24 "
-        "(thorough) series of 2*10^5 samples whose RNG seed, signal and snr derive by SHA-256 from VERIF_SEED and the "
-        "index. Non-trivial = signal with mean(y^2) != mean(y)^2 and mean(y^2) != 1 (the unit-test fixture is the "
+RULE = ("Signals: (a) 1..60 (thorough ..200) samples from the seven shared value kinds (constant, integer, dyadic, "
+        "smooth, ties, sign-changing, 1e6-offset) as float64 ndarray / list / int64 array; (b) long signals described "
+        "as data (sine+offset, sine, saw, integer pattern, two-tone) whose length is a round threshold "
+        "(1000, 1024, 4096, 10000, 16384, 65536, 100000, 131072, 200000, 262144) or its neighbour +-1, a log-uniform "
+        "length in [512, 2^19], or (rarely) about 2^20 - about one case in five in `repro`, fewer in `spy`/`weaver`. "
+        "Noise request = scalar or per-sample snr (list / ndarray; float / int; long signals: alternating blocks) in "
+        "dB [-10, 60] or linear [0.1, 1e6] with snr_in_db True / False / omitted (documented default dB), or no snr "
+        "and an explicit std (also snr together with an ignored std); a drawn 32-bit seed for NumPy's global RNG. "
+        "spy: numpy.random.normal replaced by a forwarding recorder. repro: the call repeated under the same seed and "
+        "compared with a draw made by the harness under that seed with the oracle's scale. weaver: a Weaver that has "
+        "already seen 0..3 operations (scale_y with |k| > 1, < 1, negative; shift_y; scale_x; shift_x; trend; "
+        "restore_original; normalize_y; an earlier noise), then noise(...) judged by spy + additivity + harness draw "
+        "against copies of the CURRENT ordinates, and a twin Weaver with the same history and seed. sequence: "
+        "2..5 calls on look-alike signals (same length, first and last sample, one caller array edited in place). "
+        "empirical (enumerated): 3 (quick) / 24 (thorough) series of 2*10^5 samples whose seed, signal and snr "
+        "derive by SHA-256 from VERIF_SEED and the index; statistics, plus the same seeded-replay checks. "
+        "Non-trivial = signal with mean(y^2) != mean(y)^2 and mean(y^2) != 1 (the unit-test fixture is the "
         "constant 1); distinct = distinct full input.")
 ASSUMPTIONS = [
-    "snr in [-10, 60] dB resp. [0.1, 1e6] linear, std in [1e-3, 1e3]; signal magnitudes <= ~1e7",
-    "scale reaching numpy.random.normal compared with sqrt(fsum(y^2)/n / SNR) to 1e-12 relative (observed <= 1e-15)",
+    "snr in [-10, 60] dB resp. [0.1, 1e6] linear, std in [1e-3, 1e3]; signal magnitudes <= ~1e10 (after scale_y)",
+    "scale reaching numpy.random.normal compared with sqrt(fsum(y^2)/n / SNR) to 1e-12 relative (observed <= 1e-14)",
     "additivity: result_i compared with y_i + draw_i to 1e-12 * (|y_i| + |draw_i| + scale_i)",
     "noise is expected to come from exactly one call of numpy.random.normal on NumPy's global RNG (the documented "
-    "mechanism, DESIGN C15 O(i)); an implementation drawing differently would be reported by the spy sub-check",
+    "mechanism, DESIGN C15 O(i)), for every signal length (lengths up to 2^20 + 1 are exercised); an implementation "
+    "drawing differently would be reported by the spy / repro sub-checks",
     "snr_in_db omitted is treated as decibel input (documented default of the signature)",
+    "Weaver histories use only operations that are valid in the state they meet (normalize_y only on non-constant "
+    "ordinates; trend only on series up to 20000 samples for cost); the signal is whatever get() shows before noise",
     "empirical: N = 2*10^5, tolerance 0.1 dB (about 7.3 sigma of the variance estimator, 0.0137 dB) and "
     "|mean| <= 5 sigma/sqrt(N); per-sample snr is checked on the whitened noise noise_i*sqrt(SNR_i); the outcome "
     "is deterministic for a given VERIF_SEED",
+    "the first verdict for a case is kept for the rest of the process, so that a library whose answer depends on "
+    "earlier calls yields a violation rather than a 'flaky' harness error",
 ]
-TECHNIQUE = ("Hypothesis-generated signals and noise requests with a forwarding spy on numpy.random.normal "
+TECHNIQUE = ("Hypothesis-generated signals (short explicit ones and long ones described as data, lengths around round "
+             "thresholds), noise requests and Weaver histories with a forwarding spy on numpy.random.normal "
              "(loc/scale/size vs closed form), seeded replay against an independent draw, and a seeded statistical "
              "check of the empirical SNR on 2*10^5-sample series")
 LEVEL_TEXT = ("Randomized exploration: the stochastic part is made decidable by (i) observing the exact scale that "
               "reaches the generator, (ii) fixing NumPy's global seed and comparing with an independent draw, so "
-              "every sample is checked exactly, and (iii) a fixed-seed statistical test with a 7-sigma band for the "
-              "end-to-end SNR. The fixture's degenerate signal (constant 1) is a rare class here, not the only one.")
-LEVEL_NOTE = ("trusts numpy.random.normal itself, the 20-line scale oracle in this module and the stated tolerances; "
+              "every sample is checked exactly - for short and for long signals and for Weaver objects with a "
+              "history -, and (iii) a fixed-seed statistical test with a 7-sigma band for the end-to-end SNR. The "
+              "fixture's degenerate signal (constant 1) is a rare class here, not the only one.")
+LEVEL_NOTE = ("trusts numpy.random.normal itself, the 25-line scale oracle in this module and the stated tolerances; "
               "the statistical clause is a fixed-seed test (deterministic per VERIF_SEED), not a proof about the "
-              "distribution")
+              "distribution; size-dependent behaviour beyond 2^20 samples is not explored")
 
 RTOL = 1e-12
 
-
-# ---- oracle --------------------------------------------------------------------------------------------------------
-
-def scale_oracle(y, req):
-    """Standard deviation per sample, from the statement: sqrt(mean(y^2)/SNR), SNR = 10^(snr/10) for decibel
-    input or snr itself for linear input (per sample when snr is a sequence), or std when no snr is given."""
-    n = len(y)
-    if req["snr"] is None:
-        return [float(req["std"])] * n
-    power = math.fsum(float(v) * float(v) for v in y) / n
-    snr = req["snr"] if isinstance(req["snr"], list) else [req["snr"]] * n
-    db = req["db"] is not False           # True or omitted (None) -> decibel
-    out = []
-    for s in snr:
-        lin = 10.0 ** (s / 10.0) if db else float(s)
-        out.append(math.sqrt(power / lin))
-    return out
+# ---- history-dependent faults: keep the first verdict (see C14) ----------------------------------------------------
+_VERDICTS = {}
 
 
-def is_nontrivial(y):
-    n = len(y)
-    p = math.fsum(float(v) * float(v) for v in y) / n
-    m = math.fsum(float(v) for v in y) / n
-    return any(v != y[0] for v in y) and p != 1.0 and abs(p - m * m) > 1e-12 * p
+def sticky(body):
+    def wrapped(ctx, case):
+        key = None if ctx.replaying else canon(case)
+        if key in _VERDICTS:
+            raise _VERDICTS[key]     # the very same exception object: same origin for Hypothesis, same message
+        try:
+            body(ctx, case)
+        except Exception as e:       # noqa: B902  Violation, or an exception out of the library (a violation too)
+            if key is not None:
+                _VERDICTS[key] = e
+            raise
+    wrapped.__name__ = body.__name__
+    return wrapped
 
 
-# ---- generators -------------------------------------------------------------------------------------------------------
+# ---- materialising a case ---------------------------------------------------------------------------------------------
 
-_db_val = st.one_of(fl(-10.0, 60.0), st.sampled_from([-10, 0, 3, 10, 20, 40, 60]), st.sampled_from([0.0, 10.0, 30.0]))
-_lin_val = st.one_of(fl(-1.0, 6.0).map(lambda e: 10.0 ** e), st.sampled_from([1, 2, 10, 100, 1000000]),
-                     st.sampled_from([0.1, 0.5, 1.0, 4.0]))
-
-
-@st.composite
-def noise_request(draw, n):
-    mode = draw(st.sampled_from(["scalar", "per_sample", "scalar", "per_sample", "std"]))
-    if mode == "std":
-        std = draw(st.one_of(st.sampled_from([0.5, 2.0, 3]), fl(-3.0, 3.0).map(lambda e: 10.0 ** e)))
-        return dict(mode=mode, snr=None, db=draw(st.sampled_from([None, None, True, False])), std=std,
-                    snr_container="none")
-    db = draw(st.sampled_from([True, False, None, False]))
-    val = _lin_val if db is False else _db_val
-    if mode == "scalar":
-        snr, cont = draw(val), "scalar"
-    else:
-        snr = draw(st.lists(val, min_size=n, max_size=n))
-        cont = draw(st.sampled_from(["list", "ndarray"]))
-    std = draw(st.sampled_from([None, None, None, 7.0]))   # a std given together with snr must be ignored
-    return dict(mode=mode, snr=snr, db=db, std=std, snr_container=cont)
-
-
-@st.composite
-def signal_case(draw, ctx, with_x=False):
-    lo = 2 if with_x else 1
-    m = draw(st.sampled_from([0, 1, 1, 1, 1, 1, 1, 1]).flatmap(
-        lambda big: st.integers(4, ctx.pick(60, 200)) if big else st.integers(lo, 3)))
-    yd = draw(ys(m))
-    c = dict(y=yd["y"], ykind=yd["kind"], container=draw(st.sampled_from(["ndarray", "ndarray", "list", "int"])))
-    if with_x:
-        xd = draw(xs(m))
-        c["x"], c["xkind"] = xd["x"], xd["kind"]
-        # optionally a linear trend a*t + b before the noise, so that working and reference ordinates differ
-        c["pre"] = dict(a=draw(fl(-2.0, 2.0)), b=draw(fl(-5.0, 5.0))) if draw(st.sampled_from([0, 1, 0])) else None
-    c["req"] = draw(noise_request(m))
-    c["seed"] = draw(st.integers(0, 2 ** 32 - 1))
-    return c
+def build_signal(sig, n):
+    i = np.arange(n, dtype=float)
+    A, w, c = sig["A"], sig["w"], sig["c"]
+    kind = sig["kind"]
+    if kind == "sine+offset":
+        return c + A * np.sin(w * i)
+    if kind == "sine":
+        return A * np.sin(w * i + 0.3)
+    if kind == "saw":
+        return c + A * ((i * w) % 1.0)
+    if kind == "ints":
+        return (np.arange(n) % 7 - 2) * (1 + int(A))             # int64, sign-changing
+    if kind == "two-tone":
+        return A * np.sin(w * i) - 0.5 * A * np.cos(3.1 * w * i) + 0.1 * c
+    raise RuntimeError(kind)
 
 
 def _intlike(vals):
@@ -128,18 +113,42 @@ def build(vals, container):
     return np.array([float(v) for v in vals], dtype=np.float64)
 
 
-def same_input(now, kept):
-    if type(now) is not type(kept):
-        return False
-    if isinstance(kept, np.ndarray):
-        return now.dtype == kept.dtype and now.shape == kept.shape and now.tobytes() == kept.tobytes()
-    return now == kept
+def signal_input(case):
+    """The object handed to the code under test (fresh on every call)."""
+    if "signal" in case:
+        return build_signal(case["signal"], case["n"])
+    return build(case["y"], case["container"])
 
 
-def call_args(req):
-    """(snr argument, keyword arguments) for noise_gauss / Weaver.noise."""
+def x_input(case):
+    if "xspec" in case:
+        return case["xspec"]["x0"] + case["xspec"]["h"] * np.arange(case["n"], dtype=float)
+    return build(case["x"], case["container"])
+
+
+def as_float(a):
+    return np.array([float(v) for v in a]) if isinstance(a, list) else np.asarray(a).astype(float)
+
+
+def snr_values(req, n):
+    """None, a Python scalar, or a float ndarray of n per-sample values."""
     snr = req["snr"]
+    if isinstance(snr, dict):                                    # long signals: alternating blocks of two levels
+        blocks = (np.arange(n) // snr["period"]) % 2
+        return np.where(blocks == 0, float(snr["lo"]), float(snr["hi"]))
     if isinstance(snr, list):
+        return np.array([float(v) for v in snr])
+    return snr
+
+
+def call_args(req, n):
+    """(snr argument, keyword arguments) for noise_gauss / Weaver.noise; fresh objects on every call."""
+    snr = req["snr"]
+    if isinstance(snr, dict):
+        snr = snr_values(req, n)
+        if req["snr_container"] == "list":
+            snr = snr.tolist()
+    elif isinstance(snr, list):
         snr = list(snr) if req["snr_container"] == "list" else np.array(snr)
     kw = {}
     if req["db"] is not None:
@@ -149,27 +158,140 @@ def call_args(req):
     return snr, kw
 
 
-def classes(case, yin):
+def same_input(now, kept):
+    if type(now) is not type(kept):
+        return False
+    if isinstance(kept, np.ndarray):
+        return now.dtype == kept.dtype and now.shape == kept.shape and now.tobytes() == kept.tobytes()
+    return now == kept
+
+
+# ---- oracle --------------------------------------------------------------------------------------------------------
+
+def mean_square(yf):
+    """mean(y^2): exactly rounded sum for short signals, NumPy's pairwise sum (error ~1e-15) for long ones."""
+    sq = yf * yf
+    return math.fsum(sq.tolist()) / len(yf) if len(yf) <= 4096 else float(np.sum(sq)) / len(yf)
+
+
+def scale_oracle(yf, req):
+    """Standard deviation per sample (float ndarray), from the statement: sqrt(mean(y^2)/SNR), SNR = 10^(snr/10)
+    for decibel input or snr itself for linear input (per sample when snr is a sequence), or std without snr."""
+    n = len(yf)
+    if req["snr"] is None:
+        return np.full(n, float(req["std"]))
+    power = mean_square(yf)
+    snr = snr_values(req, n)
+    db = req["db"] is not False           # True or omitted (None) -> decibel
+    if n <= 4096:
+        per = snr.tolist() if isinstance(snr, np.ndarray) else [snr] * n
+        return np.array([math.sqrt(power / (10.0 ** (s / 10.0) if db else float(s))) for s in per])
+    s = snr if isinstance(snr, np.ndarray) else np.full(n, float(snr))
+    return np.sqrt(power / (np.power(10.0, s / 10.0) if db else s))
+
+
+def is_nontrivial(yf):
+    n = len(yf)
+    p = mean_square(yf)
+    m = float(np.sum(yf)) / n
+    return bool(np.any(yf != yf[0])) and p != 1.0 and abs(p - m * m) > 1e-12 * p
+
+
+# ---- generators -------------------------------------------------------------------------------------------------------
+
+_db_val = st.one_of(fl(-10.0, 60.0), st.sampled_from([-10, 0, 3, 10, 20, 40, 60]), st.sampled_from([0.0, 10.0, 30.0]))
+_lin_val = st.one_of(fl(-1.0, 6.0).map(lambda e: 10.0 ** e), st.sampled_from([1, 2, 10, 100, 1000000]),
+                     st.sampled_from([0.1, 0.5, 1.0, 4.0]))
+_std_val = st.one_of(st.sampled_from([0.5, 2.0, 3]), fl(-3.0, 3.0).map(lambda e: 10.0 ** e))
+
+_ROUND = [1000, 1024, 4096, 10000, 16384, 65536, 100000, 131072, 200000, 262144]
+_long_n = st.sampled_from(["round"] * 10 + ["log"] * 5 + ["round"] * 10 + ["huge"] + ["log"] * 5).flatmap(
+    lambda k: st.tuples(st.sampled_from(_ROUND), st.sampled_from([-1, 0, 0, 1])).map(sum) if k == "round" else
+    st.integers(9, 18).flatmap(lambda e: st.integers(2 ** e, 2 ** (e + 1))) if k == "log" else
+    st.sampled_from([1000000, 2 ** 20, 2 ** 20 + 1]))
+
+
+@st.composite
+def noise_request(draw, n, long=False, std_weight=1):
+    mode = draw(st.sampled_from(["scalar", "per_sample", "scalar", "per_sample"] + ["std"] * std_weight))
+    if mode == "std":
+        return dict(mode=mode, snr=None, db=draw(st.sampled_from([None, None, True, False])), std=draw(_std_val),
+                    snr_container="none")
+    db = draw(st.sampled_from([True, False, None, False]))
+    val = _lin_val if db is False else _db_val
+    if mode == "scalar":
+        snr, cont = draw(val), "scalar"
+    elif long:
+        snr = dict(lo=draw(val), hi=draw(val), period=draw(st.integers(1, 5000)))
+        cont = draw(st.sampled_from(["list", "ndarray", "ndarray"]))
+    else:
+        snr = draw(st.lists(val, min_size=n, max_size=n))
+        cont = draw(st.sampled_from(["list", "ndarray"]))
+    std = draw(st.sampled_from([None, None, None, 7.0]))   # a std given together with snr must be ignored
+    return dict(mode=mode, snr=snr, db=db, std=std, snr_container=cont)
+
+
+@st.composite
+def signal_case(draw, ctx, with_x=False, long_in=8, std_weight=1):
+    """long_in: one case in `long_in` is a long signal described as data."""
+    c = {}
+    if draw(st.integers(0, long_in - 1).map(lambda v: v == long_in // 2)):
+        n = draw(_long_n)
+        c["n"] = n
+        c["signal"] = dict(kind=draw(st.sampled_from(["sine+offset", "sine", "saw", "ints", "two-tone"])),
+                           A=draw(fl(0.5, 20.0)), w=draw(fl(0.01, 0.5)), c=draw(fl(-10.0, 20.0)))
+        c["ykind"], c["container"] = "long:" + c["signal"]["kind"], "ndarray"
+        if with_x:
+            c["xspec"] = dict(x0=draw(st.sampled_from([0.0, 5.0, -100.0])), h=draw(st.sampled_from([1.0, 0.25, 300.0])))
+            c["xkind"] = "long"
+        c["req"] = draw(noise_request(n, long=True, std_weight=std_weight))
+    else:
+        lo = 2 if with_x else 1
+        m = draw(st.sampled_from([0, 1, 1, 1, 1, 1, 1, 1]).flatmap(
+            lambda big: st.integers(4, ctx.pick(60, 200)) if big else st.integers(lo, 3)))
+        yd = draw(ys(m))
+        c.update(y=yd["y"], ykind=yd["kind"], container=draw(st.sampled_from(["ndarray", "ndarray", "list", "int"])))
+        if with_x:
+            xd = draw(xs(m))
+            c["x"], c["xkind"] = xd["x"], xd["kind"]
+        c["req"] = draw(noise_request(m, std_weight=std_weight))
+    c["seed"] = draw(st.integers(0, 2 ** 32 - 1))
+    return c
+
+
+def size_class(n):
+    if n < 512:
+        return "n<512"
+    for r in _ROUND + [1000000, 2 ** 20]:
+        if abs(n - r) <= 1:
+            return f"n~{r}"
+    return "n:2^%d.." % int(math.log2(n))
+
+
+def classes(case, yin, yf):
     req = case["req"]
-    y = case["y"]
-    cls = {"y:" + case["ykind"], "in:" + case["container"], "mode:" + req["mode"],
+    n = len(yf)
+    cls = {"y:" + case["ykind"], "in:" + case["container"], "mode:" + req["mode"], size_class(n),
            "scale:" + ("std" if req["snr"] is None else "linear" if req["db"] is False else
                        "dB" if req["db"] else "dB-default")}
+    if n >= 512:
+        cls.add("long")
     if isinstance(yin, np.ndarray) and np.issubdtype(yin.dtype, np.integer):
         cls.add("y-int-dtype")
     if req["snr"] is not None and req["std"] is not None:
         cls.add("snr+ignored-std")
     if req["mode"] == "per_sample":
         cls.add("snr:" + req["snr_container"])
-        if len(set(req["snr"])) > 1:
+        s = snr_values(req, n)
+        if np.any(s != s[0]):
             cls.add("per-sample-varying")
     if req["mode"] == "scalar":
         cls.add("snr:" + type(req["snr"]).__name__)
-    if any(v < 0 for v in y) and any(v > 0 for v in y):
+    if np.any(yf < 0) and np.any(yf > 0):
         cls.add("sign-changing")
-    if all(v == y[0] for v in y):
+    if np.all(yf == yf[0]):
         cls.add("constant-signal")
-        if y[0] in (1.0, -1.0):
+        if yf[0] in (1.0, -1.0):
             cls.add("fixture-like(power=1)")
     return cls
 
@@ -210,14 +332,20 @@ def with_spy(fn):
     return res, calls
 
 
-def check_spy(calls, y, req, what):
-    """loc == 0, drawn shape == signal shape, scale == oracle (elementwise, broadcast).  Returns the draw."""
-    n = len(y)
+def first_bad(ok):
+    return int(np.nonzero(~ok)[0][0])
+
+
+def check_spy(calls, yf, req, what):
+    """loc == 0, drawn shape == signal shape, scale == oracle (elementwise, broadcast).
+    Returns (the draw, the oracle's scale, worst relative deviation of the scale)."""
+    n = len(yf)
     if len(calls) != 1:
-        raise Violation(f"{what}: numpy.random.normal called {len(calls)} times, expected exactly once")
+        raise Violation(f"{what}: numpy.random.normal called {len(calls)} times for a signal of {n} samples, expected "
+                        f"exactly once")
     loc, scale, size, out = calls[0]
     if not np.all(np.asarray(loc) == 0):
-        raise Violation(f"{what}: noise drawn with loc={np.asarray(loc).tolist()!r}, not 0")
+        raise Violation(f"{what}: noise drawn with loc={np.asarray(loc).ravel()[:3].tolist()!r}, not 0")
     if size is not None and tuple(np.atleast_1d(size).tolist()) != (n,):
         raise Violation(f"{what}: noise drawn with size={size!r}, signal shape is ({n},)")
     if np.shape(out) != (n,):
@@ -226,40 +354,49 @@ def check_spy(calls, y, req, what):
     if sc.shape not in ((), (n,)):
         raise Violation(f"{what}: scale has shape {sc.shape}")
     sc = np.broadcast_to(sc, (n,))
-    want = scale_oracle(y, req)
-    worst = 0.0
-    for i in range(n):
-        if not abs(float(sc[i]) - want[i]) <= RTOL * want[i]:
-            raise Violation(f"{what}: scale for sample {i} is {float(sc[i])!r}, expected {want[i]!r}",
-                            detail=dict(mean_y2=math.fsum(float(v) ** 2 for v in y) / n))
-        if want[i] > 0:
-            worst = max(worst, abs(float(sc[i]) - want[i]) / want[i])
+    want = scale_oracle(yf, req)
+    dev = np.abs(sc - want)
+    ok = dev <= RTOL * want
+    if not np.all(ok):
+        i = first_bad(ok)
+        raise Violation(f"{what}: scale for sample {i} is {float(sc[i])!r}, expected {float(want[i])!r}",
+                        detail=dict(mean_y2=mean_square(yf), n=n))
+    pos = want > 0
+    worst = float(np.max(dev[pos] / want[pos])) if np.any(pos) else 0.0
     return np.asarray(out, dtype=float), want, worst
 
 
-def check_additive(r, y, draw, scale, what):
-    for i in range(len(y)):
-        want = float(y[i]) + float(draw[i])
-        tol = RTOL * (abs(float(y[i])) + abs(float(draw[i])) + scale[i])
-        if not abs(float(r[i]) - want) <= tol:
-            raise Violation(f"{what}: sample {i} is {float(r[i])!r}, expected y + noise = {float(y[i])!r} + "
-                            f"{float(draw[i])!r} = {want!r}")
+def check_additive(r, yf, draw, scale, what):
+    want = yf + draw
+    ok = np.abs(r - want) <= RTOL * (np.abs(yf) + np.abs(draw) + scale)
+    if not np.all(ok):
+        i = first_bad(ok)
+        raise Violation(f"{what}: sample {i} of {len(yf)} is {float(r[i])!r}, expected y + noise = {float(yf[i])!r} + "
+                        f"{float(draw[i])!r} = {float(want[i])!r}")
 
 
 def harness_draw(seed, scale, n):
     """The Gaussian term the statement prescribes, drawn by the harness itself under the same global seed."""
     np.random.seed(seed)
-    return np.random.normal(0.0, np.array(scale, dtype=float), n)
+    return np.random.normal(0.0, np.asarray(scale, dtype=float), n)
+
+
+def check_same_bits(r1, r2, seed, what):
+    if r1.tobytes() != r2.tobytes():
+        bad = first_bad(r1 == r2)
+        raise Violation(f"{what}: two runs under numpy seed {seed} differ at sample {bad} of {len(r1)}: "
+                        f"{float(r1[bad])!r} vs {float(r2[bad])!r}")
 
 
 # ---- 1. spy: the scale reaching the generator, additivity ---------------------------------------------------------------
 
 def spy_body(ctx, case):
-    y, req = case["y"], case["req"]
-    n = len(y)
-    yin = build(y, case["container"])
+    req = case["req"]
+    yin = signal_input(case)
     yk = copy.deepcopy(yin)
-    snr, kw = call_args(req)
+    yf = as_float(yk)
+    n = len(yf)
+    snr, kw = call_args(req, n)
     np.random.seed(case["seed"])
     if req["snr"] is None and case["seed"] % 2:
         how = "snr-omitted"
@@ -271,41 +408,73 @@ def spy_body(ctx, case):
         how = "snr-keyword"
         r, calls = with_spy(lambda: process.noise_gauss(yin, snr=snr, **kw))
     r = result_array(r, n, "noise_gauss result")
-    draw, scale, worst = check_spy(calls, y, req, "noise_gauss")
-    check_additive(r, y, draw, scale, "noise_gauss")
+    draw, scale, worst = check_spy(calls, yf, req, "noise_gauss")
+    check_additive(r, yf, draw, scale, "noise_gauss")
     if not same_input(yin, yk):
         raise Violation("noise_gauss modified its input")
     if worst > 1e-14:
         ctx.count("scale-dev>1e-14")
-    ctx.record(case, classes(case, yin) | {how}, nontrivial=is_nontrivial(y))
+    ctx.record(case, classes(case, yin, yf) | {how}, nontrivial=is_nontrivial(yf))
 
 
 # ---- 2. reproducibility and the Gaussian term under a fixed seed (process level) -----------------------------------------
 
 def repro_body(ctx, case):
-    y, req, seed = case["y"], case["req"], case["seed"]
-    n = len(y)
-    yin = build(y, case["container"])
+    req, seed = case["req"], case["seed"]
+    yin = signal_input(case)
     yk = copy.deepcopy(yin)
-    snr, kw = call_args(req)
+    yf = as_float(yk)
+    n = len(yf)
+    snr, kw = call_args(req, n)
     np.random.seed(seed)
     r1 = result_array(process.noise_gauss(yin, snr, **kw), n, "noise_gauss result")
     np.random.seed(seed)
-    r2 = result_array(process.noise_gauss(build(y, case["container"]), call_args(req)[0], **kw), n,
+    r2 = result_array(process.noise_gauss(signal_input(case), call_args(req, n)[0], **kw), n,
                       "noise_gauss result (2nd run)")
-    if r1.tobytes() != r2.tobytes():
-        bad = next(i for i in range(n) if r1[i] != r2[i])
-        raise Violation(f"two runs under numpy seed {seed} differ at sample {bad}: {float(r1[bad])!r} vs "
-                        f"{float(r2[bad])!r}")
-    scale = scale_oracle(y, req)
+    check_same_bits(r1, r2, seed, "noise_gauss")
+    scale = scale_oracle(yf, req)
     draw = harness_draw(seed, scale, n)
-    check_additive(r1, y, draw, scale, f"noise_gauss under seed {seed} vs normal(0, scale_oracle)")
+    check_additive(r1, yf, draw, scale, f"noise_gauss under seed {seed} vs normal(0, scale_oracle)")
     if not same_input(yin, yk):
         raise Violation("noise_gauss modified its input")
-    ctx.record(case, classes(case, yin), nontrivial=is_nontrivial(y))
+    ctx.record(case, classes(case, yin, yf), nontrivial=is_nontrivial(yf))
 
 
-# ---- 3. Weaver.noise ----------------------------------------------------------------------------------------------------------
+# ---- 3. Weaver.noise on a Weaver with a history ---------------------------------------------------------------------------
+
+_scale_y_val = st.one_of(st.sampled_from([2, 0.5, -1, -3.0, 10, 0.1, 1, 4.0]), fl(1.0, 1e3), fl(1e-3, 1.0),
+                         fl(-100.0, -0.01))
+
+
+@st.composite
+def prep_step(draw, allow_trend):
+    op = draw(st.sampled_from(["scale_y", "scale_y", "scale_y", "shift_y", "scale_x", "shift_x", "restore_original",
+                               "normalize_y", "noise"] + (["trend"] if allow_trend else [])))
+    if op == "scale_y":
+        return dict(op=op, v=draw(_scale_y_val))
+    if op == "scale_x":
+        return dict(op=op, v=draw(st.one_of(st.sampled_from([2, 0.5, 60.0, -1.0]), fl(0.01, 100.0))))
+    if op in ("shift_y", "shift_x"):
+        return dict(op=op, v=draw(st.one_of(st.sampled_from([1, -2.5, 100.0]), fl(-1e3, 1e3))))
+    if op == "normalize_y":
+        lo = draw(st.one_of(st.sampled_from([0, -1.0, 5.0]), fl(-100.0, 100.0)))
+        return dict(op=op, lo=lo, hi=lo + draw(st.one_of(st.sampled_from([1, 2.0, 10.0]), fl(0.1, 100.0))))
+    if op == "trend":
+        return dict(op=op, a=draw(fl(-2.0, 2.0)), b=draw(fl(-5.0, 5.0)), normalized=draw(st.booleans()))
+    if op == "noise":
+        return draw(st.one_of(st.builds(lambda s: dict(op="noise", snr=None, std=s), _std_val),
+                              st.builds(lambda s: dict(op="noise", snr=s, std=None), _db_val)))
+    return dict(op=op)
+
+
+@st.composite
+def weaver_case(draw, ctx):
+    c = draw(signal_case(ctx, with_x=True, long_in=10, std_weight=3))
+    n = c.get("n", len(c.get("y", [])))
+    k = draw(st.sampled_from([0, 1, 1, 2, 2, 3]))
+    c["prep"] = [draw(prep_step(allow_trend=n <= 20000)) for _ in range(k)]
+    return c
+
 
 def weaver_pair(res, n, what):
     if not (isinstance(res, tuple) and len(res) == 2):
@@ -317,50 +486,134 @@ def weaver_pair(res, n, what):
     return res
 
 
+def apply_prep(w, steps, seed, n, counter=None):
+    """Apply the preparatory operations; returns the labels of those actually applied."""
+    done = []
+    for j, s in enumerate(steps):
+        op = s["op"]
+        if op in ("scale_y", "scale_x", "shift_y", "shift_x"):
+            getattr(w, op)(s["v"])
+        elif op == "restore_original":
+            w.restore_original()
+        elif op == "normalize_y":
+            cur = weaver_pair(w.get(), n, "Weaver.get")[1]
+            ref = weaver_pair(w.get_reference(), n, "Weaver.get_reference")[1]
+            org = weaver_pair(w.get_original(), n, "Weaver.get_original")[1]
+            if not (np.all(np.isfinite(cur)) and cur.min() < cur.max() and ref.min() < ref.max()
+                    and org.min() < org.max()):
+                if counter is not None:
+                    counter("normalize_y-on-constant-skipped")
+                continue                                      # precondition of normalise: non-constant data
+            w.normalize_y(s["lo"], s["hi"])
+        elif op == "trend":
+            a, b = s["a"], s["b"]
+            w.trend(lambda t: a * t + b, normalized=s["normalized"])
+        elif op == "noise":
+            np.random.seed((seed + 1 + j) % 2 ** 32)
+            if s["snr"] is None:
+                w.noise(None, std=s["std"])
+            else:
+                w.noise(s["snr"])
+        done.append(op)
+    return done
+
+
 def weaver_body(ctx, case):
-    x, y, req, seed = case["x"], case["y"], case["req"], case["seed"]
-    n = len(y)
-    xin, yin = build(x, case["container"]), build(y, case["container"])
+    req, seed = case["req"], case["seed"]
+    xin, yin = x_input(case), signal_input(case)
     xk, yk = copy.deepcopy(xin), copy.deepcopy(yin)
-    snr, kw = call_args(req)
+    n = len(as_float(yk))
+    snr, kw = call_args(req, n)
     w = Weaver(xin, yin)
-    pre = case.get("pre")
-    if pre is not None:
-        # the signal is then whatever the working series holds before the noise (observed, not modelled: C14)
-        w.trend(lambda t: pre["a"] * t + pre["b"])
-        y = result_array(weaver_pair(w.get(), n, "Weaver.get")[1], n, "y after trend").tolist()
+    done = apply_prep(w, case["prep"], seed, n, ctx.count)
+    # the signal is whatever the working series holds now (observed, not modelled: the other properties' business)
+    snap = {g: tuple(a.copy() for a in weaver_pair(getattr(w, g)(), n, f"Weaver.{g}"))
+            for g in ("get", "get_reference", "get_original")}
+    cx, cy = snap["get"]
+    if not (np.issubdtype(cy.dtype, np.number) and np.all(np.isfinite(cy))):
+        raise Violation(f"working ordinates not finite numbers after {done}")
+    yf = cy.astype(float)
     np.random.seed(seed)
     _, calls = with_spy(lambda: w.noise(snr, **kw))
     gx, gy = weaver_pair(w.get(), n, "Weaver.get")
     gy = result_array(gy, n, "y after Weaver.noise")
     if len(w) != n:
         raise Violation(f"len(Weaver) is {len(w)} after noise, was {n}")
-    x0, y0 = np.asarray(xk), np.asarray(yk)
-    if not np.array_equal(gx, x0):
+    if not np.array_equal(gx, cx):
         raise Violation("Weaver.noise changed x")
-    draw, scale, _ = check_spy(calls, y, req, "Weaver.noise")
-    check_additive(gy, y, draw, scale, "Weaver.noise")
-    check_additive(gy, y, harness_draw(seed, scale, n), scale,
-                   f"Weaver.noise under seed {seed} vs normal(0, scale_oracle)")
+    what = f"Weaver.noise after {done}" if done else "Weaver.noise"
+    draw, scale, _ = check_spy(calls, yf, req, what)
+    check_additive(gy, yf, draw, scale, what)
+    check_additive(gy, yf, harness_draw(seed, scale, n), scale, f"{what} under seed {seed} vs normal(0, scale_oracle)")
     for getter in ("get_reference", "get_original"):
         hx, hy = weaver_pair(getattr(w, getter)(), n, f"Weaver.{getter}")
-        if not (np.array_equal(hx, x0) and np.array_equal(hy, y0)):
-            raise Violation(f"Weaver.noise changed {getter}()")
-    w2 = Weaver(build(x, case["container"]), build(case["y"], case["container"]))
-    if pre is not None:
-        w2.trend(lambda t: pre["a"] * t + pre["b"])
+        if not (np.array_equal(hx, snap[getter][0]) and np.array_equal(hy, snap[getter][1])):
+            raise Violation(f"{what} changed {getter}()")
+    # a twin with the same history and the same seeds
+    w2 = Weaver(x_input(case), signal_input(case))
+    apply_prep(w2, case["prep"], seed, n)
     np.random.seed(seed)
-    w2.noise(call_args(req)[0], **kw)
-    g2 = weaver_pair(w2.get(), n, "Weaver.get (2nd run)")
-    if np.asarray(g2[1]).tobytes() != gy.tobytes():
-        raise Violation(f"two Weaver.noise runs under numpy seed {seed} differ")
+    w2.noise(call_args(req, n)[0], **kw)
+    g2 = weaver_pair(w2.get(), n, "Weaver.get (twin)")
+    check_same_bits(gy, result_array(g2[1], n, "twin y"), seed, what)
     if not (same_input(xin, xk) and same_input(yin, yk)):
-        raise Violation("Weaver.noise modified the caller's arrays")
-    cls = classes(case, yin) | {"x:" + case["xkind"], "after-trend" if pre is not None else "fresh"}
-    ctx.record(case, cls, nontrivial=is_nontrivial(y))
+        raise Violation(f"{what} modified the caller's arrays")
+    cls = classes(case, yin, yf) | {"x:" + case["xkind"], f"history={len(done)}"} | {"prep:" + d for d in done}
+    for s in case["prep"]:
+        if s["op"] == "scale_y" and s["op"] in done:
+            a = abs(s["v"])
+            cls.add("prep:scale_y" + ("<0" if s["v"] < 0 else "") + ("|k|>1" if a > 1 else "|k|<1" if a < 1 else "|k|=1"))
+    if req["snr"] is None and any(s["op"] == "scale_y" and s["v"] != 1 for s in case["prep"]):
+        cls.add("std-after-scale_y")
+    if req["mode"] == "scalar" and any(s["op"] == "scale_x" and s["v"] != 1 for s in case["prep"]):
+        cls.add("scalar-snr-after-scale_x")
+    ctx.record(case, cls, nontrivial=is_nontrivial(yf))
 
 
-# ---- 4. empirical SNR of long series ---------------------------------------------------------------------------------------
+# ---- 4. several calls in a row on look-alike signals ------------------------------------------------------------------------
+
+@st.composite
+def sequence_case(draw, ctx):
+    n = draw(st.integers(3, ctx.pick(24, 60)))
+    first, last = draw(fl(-10.0, 10.0)), draw(fl(-10.0, 10.0))
+    signals = []
+    for _ in range(draw(st.integers(2, 3))):
+        y = draw(ys(n))["y"]
+        y[0], y[-1] = first, last
+        signals.append(y)
+    steps = [dict(s=draw(st.integers(0, len(signals) - 1)), via=draw(st.sampled_from(["shared", "fresh", "shared"])),
+                  req=draw(noise_request(n, std_weight=1)), seed=draw(st.integers(0, 2 ** 32 - 1)))
+             for _ in range(draw(st.integers(2, 5)))]
+    return dict(signals=signals, steps=steps)
+
+
+def sequence_body(ctx, case):
+    n = len(case["signals"][0])
+    shared = np.empty(n)
+    cls = set()
+    for k, s in enumerate(case["steps"]):
+        vals = case["signals"][s["s"]]
+        if s["via"] == "shared":
+            shared[:] = vals                                  # the same caller array as before, new contents
+            yin = shared
+        else:
+            yin = np.array(vals, dtype=float)
+        yf = np.array(vals, dtype=float)
+        snr, kw = call_args(s["req"], n)
+        np.random.seed(s["seed"])
+        r, calls = with_spy(lambda: process.noise_gauss(yin, snr, **kw))
+        r = result_array(r, n, f"call {k}: result")
+        draw, scale, _ = check_spy(calls, yf, s["req"], f"call {k} (signal {s['s']}, {s['via']})")
+        check_additive(r, yf, draw, scale, f"call {k}")
+        check_additive(r, yf, harness_draw(s["seed"], scale, n), scale, f"call {k} under seed {s['seed']}")
+        if yin.tolist() != vals:
+            raise Violation(f"call {k}: noise_gauss modified its input")
+        r.fill(1e300)                                         # nothing handed out may be reused
+        cls.update({"via:" + s["via"], "mode:" + s["req"]["mode"]})
+    ctx.record(case, cls, nontrivial=len({s["s"] for s in case["steps"]}) >= 2)
+
+
+# ---- 5. empirical SNR of long series ---------------------------------------------------------------------------------------
 
 N_LONG = 200000
 _SIGNALS = ["sine+offset", "sine", "saw", "ints", "two-tone"]
@@ -399,23 +652,6 @@ def empirical_cases(ctx, shard, nshards):
         yield dict(index=i, seed=seed, n=N_LONG, signal=sig, req=req, level="weaver" if i % 3 == 1 else "process")
 
 
-def build_signal(sig, n):
-    i = np.arange(n, dtype=float)
-    A, w, c = sig["A"], sig["w"], sig["c"]
-    kind = sig["kind"]
-    if kind == "sine+offset":
-        return c + A * np.sin(w * i)
-    if kind == "sine":
-        return A * np.sin(w * i + 0.3)
-    if kind == "saw":
-        return c + A * ((i * w) % 1.0)
-    if kind == "ints":
-        return (np.arange(n) % 7 - 2) * (1 + int(A))             # int64, sign-changing
-    if kind == "two-tone":
-        return A * np.sin(w * i) - 0.5 * A * np.cos(3.1 * w * i) + 0.1 * c
-    raise RuntimeError(kind)
-
-
 def build_snr(req, n):
     """(argument handed to the code, per-sample linear SNR or None)"""
     kind = req["kind"]
@@ -430,6 +666,20 @@ def build_snr(req, n):
     return None, None
 
 
+def empirical_run(case, y, snr_arg, kw):
+    n = case["n"]
+    np.random.seed(case["seed"])
+    if case["level"] == "weaver":
+        w = Weaver(np.arange(n, dtype=float), y)
+        w.noise(snr_arg, **kw)
+        gx, r = weaver_pair(w.get(), n, "Weaver.get")
+        if not np.array_equal(gx, np.arange(n, dtype=float)):
+            raise Violation("Weaver.noise changed x")
+    else:
+        r = process.noise_gauss(y, snr_arg, **kw)
+    return result_array(r, n, "noised signal")
+
+
 def empirical_body(ctx, case):
     n, req = case["n"], case["req"]
     y = build_signal(case["signal"], n)
@@ -440,16 +690,7 @@ def empirical_body(ctx, case):
         kw["snr_in_db"] = req["db"]
     if req["kind"] == "std":
         kw["std"] = req["std"]
-    np.random.seed(case["seed"])
-    if case["level"] == "weaver":
-        w = Weaver(np.arange(n, dtype=float), y)
-        w.noise(snr_arg, **kw)
-        gx, r = weaver_pair(w.get(), n, "Weaver.get")
-        if not np.array_equal(gx, np.arange(n, dtype=float)):
-            raise Violation("Weaver.noise changed x")
-    else:
-        r = process.noise_gauss(y, snr_arg, **kw)
-    r = result_array(r, n, "noised signal")
+    r = empirical_run(case, y, snr_arg, kw)
     if y.tobytes() != yk.tobytes():
         raise Violation("noise modified its input")
     yf = y.astype(float)
@@ -461,6 +702,12 @@ def empirical_body(ctx, case):
     else:
         sigma = np.sqrt(power / snr_lin)
         requested = 10.0 * np.log10(snr_lin)
+    # (a) the series is long, not different: same seed -> same bits, and == y + normal(0, sigma) drawn by the harness
+    r2 = empirical_run(case, build_signal(case["signal"], n), build_snr(req, n)[0], kw)
+    check_same_bits(r, r2, case["seed"], f"{case['level']}-level noise on {n} samples")
+    check_additive(r, yf, harness_draw(case["seed"], sigma, n), sigma,
+                   f"{case['level']}-level noise on {n} samples under seed {case['seed']} vs normal(0, scale_oracle)")
+    # (b) statistics
     if req["kind"] in ("dB", "linear"):
         # literally the statement: empirical 10*log10(mean(y^2)/var(noise)) against the requested value
         var = float(np.var(noise))
@@ -497,14 +744,20 @@ def empirical_body(ctx, case):
 
 
 SUBCHECKS = [
-    Sub("spy", "hyp", spy_body, strategy=lambda ctx: signal_case(ctx), quick=500, thorough=10000,
+    Sub("spy", "hyp", sticky(spy_body), strategy=lambda ctx: signal_case(ctx, long_in=10), quick=400, thorough=8000,
         clause="the Gaussian term: loc 0, one value per sample, standard deviation sqrt(mean(y^2)/SNR) (dB / linear / "
-               "per sample) or std; result = y + that term; input untouched"),
-    Sub("repro", "hyp", repro_body, strategy=lambda ctx: signal_case(ctx), quick=500, thorough=10000,
-        clause="fixed NumPy seed: two runs bitwise equal, and equal to y + normal(0, scale_oracle) drawn by the harness"),
-    Sub("weaver", "hyp", weaver_body, strategy=lambda ctx: signal_case(ctx, with_x=True), quick=500, thorough=10000,
-        clause="Weaver.noise: x and length unchanged, same scale / additivity / reproducibility, reference and "
-               "original untouched"),
-    Sub("empirical", "enum", empirical_body, cases=empirical_cases, shards=8, exhaustive=False,
-        clause="empirical SNR of 2*10^5-sample series within 0.1 dB of the request, noise mean within 5 sigma/sqrt(N)"),
+               "per sample) or std; result = y + that term; input untouched; short and long signals"),
+    Sub("repro", "hyp", sticky(repro_body), strategy=lambda ctx: signal_case(ctx, long_in=4), quick=500,
+        thorough=10000,
+        clause="fixed NumPy seed: two runs bitwise equal, and equal to y + normal(0, scale_oracle) drawn by the harness; "
+               "one case in four has a length at / next to a round threshold up to 2^20"),
+    Sub("weaver", "hyp", sticky(weaver_body), strategy=weaver_case, quick=400, thorough=8000,
+        clause="Weaver.noise on an object with 0..3 earlier operations: x and length unchanged, scale / additivity / "
+               "reproducibility judged on the current ordinates, reference and original untouched"),
+    Sub("sequence", "hyp", sticky(sequence_body), strategy=sequence_case, quick=100, thorough=2000,
+        clause="every call is judged on its own arguments: 2..5 calls in a row on look-alike signals, caller array "
+               "edited in place"),
+    Sub("empirical", "enum", sticky(empirical_body), cases=empirical_cases, shards=8, exhaustive=False,
+        clause="2*10^5-sample series: empirical SNR within 0.1 dB of the request, noise mean within 5 sigma/sqrt(N), "
+               "and the same seeded-replay checks as for short series"),
 ]
